@@ -197,6 +197,8 @@ func exec(op string) (res string) {
 		return polSchema(w)
 	case "pfresh":
 		return polFresh()
+	case "psettled":
+		return polSettled()
 	case "prepl", "xprepl", "ppick", "spick":
 		return polQuery(w)
 	case "strategy":
